@@ -743,19 +743,24 @@ class ImplEngine(object):
         try:
             # (KMIP 2.0 requests keep the object door: their wire form cannot carry everything the abstract request
             # holds - attribute indices, template names - so a decoded copy would not be the request the model is given)
+            msg = None
             req_b, smuggled = _substitute_empty(req) if req["version"] < 20 else (req, False)
-            msg = build_request(req_b)
             if smuggled:
                 # empty text strings reach the server through the DECODER (read() assigns fields directly), not
                 # through constructors: encode with placeholders, empty them in the bytes, decode as the session does
-                v = req["version"]
-                kv = contents.protocol_version_to_kmip_version(version_obj(v)) or enums.KMIPVersion.KMIP_1_2
-                st = utils.BytearrayStream()
-                msg.write(st, kmip_version=kv)
-                raw = _empty_placeholders(bytes(st.buffer))
-                msg = messages.RequestMessage()
-                dv = contents.protocol_version_to_kmip_version(self.engine.default_protocol_version)
-                msg.read(utils.BytearrayStream(raw), kmip_version=dv)
+                try:
+                    v = req["version"]
+                    kv = contents.protocol_version_to_kmip_version(version_obj(v)) or enums.KMIPVersion.KMIP_1_2
+                    st = utils.BytearrayStream()
+                    build_request(req_b).write(st, kmip_version=kv)
+                    raw = _empty_placeholders(bytes(st.buffer))
+                    msg = messages.RequestMessage()
+                    dv = contents.protocol_version_to_kmip_version(self.engine.default_protocol_version)
+                    msg.read(utils.BytearrayStream(raw), kmip_version=dv)
+                except Exception:
+                    msg = None              # not encodable / decodable as a whole: the object door decides
+            if msg is None:
+                msg = build_request(req)
         except Exception as e:
             # the library's constructors / setters refuse a value the generator holds legal: this request cannot be
             # presented through this (object-level) door; it is dropped, never guessed at
